@@ -60,6 +60,9 @@ type khCase struct {
 	Contacts []contact
 	Answers  []string // one list entry per prompt: "y", "n", "a", "d,y", "x,n" ...
 	TrustAll bool
+	// Recontact: hosts the user refused are contacted a second time through the same callback (what a retrying
+	// client does) and refused again at the prompt; they must be refused again
+	Recontact bool
 }
 
 func hostName(i int) string { return fmt.Sprintf("host%d.example.org", i) }
@@ -128,6 +131,7 @@ func genCase(t *rapid.T) khCase {
 	c.CRLF = false
 	c.FinalNL = rapid.IntRange(0, 4).Draw(t, "finalnl") != 0
 	c.TrustAll = rapid.IntRange(0, 9).Draw(t, "trustall") == 0
+	c.Recontact = rapid.IntRange(0, 2).Draw(t, "recontact") == 0
 	// contacts
 	big := rapid.IntRange(0, 9).Draw(t, "big")
 	switch {
@@ -321,6 +325,62 @@ loop:
 			trustAllNow = true
 		}
 		batches = append(batches, batch{hosts: strings.Split(m[2], ","), answer: eff})
+	}
+	// a retrying client contacts a refused host again through the same callback object
+	if c.Recontact && !timedOut && !trustAllNow && !c.TrustAll {
+		var again []int
+		for i, ct := range c.Contacts {
+			if errs[i] != nil && ct.Status != "known" {
+				again = append(again, i)
+			}
+		}
+		if len(again) > 0 {
+			errs2 := make([]error, len(c.Contacts))
+			var wg2 sync.WaitGroup
+			for _, i := range again {
+				wg2.Add(1)
+				go func(i int) {
+					defer wg2.Done()
+					ct := c.Contacts[i]
+					errs2[i] = wrap(hostPort(ct.Host), hostIP(ct.Host), keys[ct.Key])
+				}(i)
+			}
+			done2 := make(chan struct{})
+			go func() { wg2.Wait(); close(done2) }()
+			deadline2 := time.After(20 * time.Second)
+		loop2:
+			for {
+				select {
+				case <-done2:
+					break loop2
+				case <-deadline2:
+					timedOut = true
+					break loop2
+				case <-time.After(3 * time.Millisecond):
+				}
+				outMu.Lock()
+				s := outBuf.String()[consumed:]
+				outMu.Unlock()
+				if idx := strings.Index(s, "): "); idx >= 0 {
+					consumed += idx + 3
+					inW.Write([]byte("n\n"))
+				}
+			}
+			o.Classes = append(o.Classes, "refused-host-contacted-again")
+			if !timedOut {
+				for _, i := range again {
+					if errs2[i] == nil {
+						cancel()
+						restore()
+						o.Fail = fmt.Sprintf("host %s was refused by the user, then contacted again through the same callback and let through (the second prompt was answered 'n' as well, or never shown)", hostPort(c.Contacts[i].Host))
+						outMu.Lock()
+						o.Observed = outBuf.String()
+						outMu.Unlock()
+						return o
+					}
+				}
+			}
+		}
 	}
 	// the callbacks are released before the file is rewritten: give the rewrite time to finish
 	for t0 := time.Now(); time.Since(t0) < 5*time.Second; time.Sleep(2 * time.Millisecond) {
